@@ -529,7 +529,9 @@ pub fn unreachable_panic() -> (r: u32) requires false { unimplemented!() }
             p = Piece(f)
             p.name_result("r")
             p.sub(r"^fn ", "pub fn ", "R15", count=1)
-            p.add_contract("    #[verifier::external_body] /* not part of the control */\n" if False else "    requires false,")
+            for k in range(len(p.loops())):
+                p.add_loop_contract(k + 1, "                    decreases 0int,")
+            p.add_contract("    requires false,")
             g.emit(p, name="binary::parser::Parser::" + f.name, under_contract=False)
             continue
         if f.name == "parse_operand":
@@ -581,6 +583,10 @@ pub fn unreachable_panic() -> (r: u32) requires false { unimplemented!() }
             def edit(p):
                 # ghost cut points between the sequential `if` blocks (keeps the query linear)
                 p.sub(r"(\n        \})(\n        if )", r"\1 proof { assert(step_inv(*old(self), *self)); }\2", "ghost-cut", required=False)
+                # a variadic parameter is read by `while !self.decoder.limit_reached() { params.push(..) }`: loop contract
+                for k in range(len(p.loops())):
+                    p.add_loop_contract(k + 1, """                    invariant step_inv(*old(self), *self), old(self).decoder.wf(), old(self).decoder.limit is Some,
+                    decreases self.decoder.limit->0,""")
             K = {"parse_image_operands_arguments": "ImageOperands", "parse_loop_control_arguments": "LoopControl",
                  "parse_memory_access_arguments": "MemoryAccess", "parse_execution_mode_arguments": "ExecutionMode",
                  "parse_decoration_arguments": "Decoration",
